@@ -432,16 +432,30 @@ func checkC06(c *Ctx) {
 			r.Bad("C06/SIZE/data", cons, p.InstrPos(site), "no branch compares the length of the received DATA with config.SMTP.MaxMessageBytes, neither in %s nor in %s (%s): an oversized message is delivered and acknowledged", shortFn(F), shortFn(m.dataRead), p.Pos(m.dataRead.Pos()))
 			continue
 		}
-		// error result of gcall must guard Deliver
+		// error result of gcall must guard Deliver. When the read sits in a helper that tells
+		// its caller whether there is something to deliver, the error is handled in the helper
+		// (Fr) and the caller is guarded by the helper's answer.
+		_, inner := m.readVia(F)
+		Fr, rcall := F, gcall
+		if inner != nil {
+			Fr, rcall = inner.Parent(), inner
+		}
 		var errVal ssa.Value
-		for _, ref := range *gcall.Referrers() {
+		for _, ref := range *rcall.Referrers() {
 			if e, ok := ref.(*ssa.Extract); ok && e.Index == 1 {
 				errVal = e
 			}
 		}
 		guarded := false
 		var guardIf *ssa.If
-		if errVal != nil {
+		if errVal != nil && inner != nil {
+			guarded = m.readSucceededAt(gcall, inner, site.Block())
+			for _, b := range Fr.Blocks {
+				if rel, ok := eng.EdgeRel(b, 0); ok && rel.X == errVal && eng.IsNilConst(rel.Y) && (rel.Op == token.NEQ || rel.Op == token.EQL) && guardIf == nil {
+					guardIf = eng.IfOf(b)
+				}
+			}
+		} else if errVal != nil {
 			for _, b := range F.Blocks {
 				rel, ok := eng.EdgeRel(b, 0)
 				if !ok || rel.X != errVal || !eng.IsNilConst(rel.Y) {
@@ -531,8 +545,8 @@ func checkC06(c *Ctx) {
 					ev   ssa.Value
 					call *ssa.Call
 				}
-				cands := []cand{{F, errVal, nil}}
-				eng.EachInstr(F, func(in ssa.Instruction) {
+				cands := []cand{{Fr, errVal, nil}}
+				eng.EachInstr(Fr, func(in ssa.Instruction) {
 					call, ok := in.(*ssa.Call)
 					if !ok {
 						return
@@ -575,6 +589,10 @@ func checkC06(c *Ctx) {
 					r.Bad("C06/USABLE", cons, gs, "after the over-limit error is handled by %s the caller reaches enterState(QUIT) at %s", shortFn(eng.StaticCallee(viaHelper.Common())), p.InstrPos(hit))
 					continue
 				}
+			}
+			if handled == nil && guardIf == nil {
+				r.Undecided("C06/USABLE", cons, gs, "where %s deals with the error of the DATA read was not found", shortFn(Fr))
+				continue
 			}
 			if handled == nil {
 				// generic error path
